@@ -750,7 +750,15 @@ func c11Case(c *fw.Ctx, vectors []int, nTexts int) {
 		for _, text := range c11Texts(r, u.g, nTexts) {
 			want, tie := u.model.Tokens(text)
 			if tie != "" {
-				c.Violate("compile/ambiguous-rules-accepted", fmt.Sprintf("%s have the same priority and match the same prefix of %q but the grammar compiled\n%s", tie, clip(text, 200), u.text), map[string]string{"grammar.tm": u.text, "input.txt": text})
+				sig := "compile/ambiguous-rules-accepted"
+				if a, b := u.model.TieRules[0], u.model.TieRules[1]; u.g.Rules[a].Class && u.g.Rules[b].Class {
+					// both are (class) rules: the compiler compiles those separately first
+					sig = "compile/ambiguous-class-rules-accepted"
+					if len(u.pkg.G.Lexer.ClassActions) == 0 {
+						sig += "/class-rules-dropped"
+					}
+				}
+				c.Violate(sig, fmt.Sprintf("%s have the same priority and match the same prefix of %q but the grammar compiled\n%s", tie, clip(text, 200), u.text), map[string]string{"grammar.tm": u.text, "input.txt": text})
 				break
 			}
 			metas = append(metas, meta{u, text, want})
